@@ -192,10 +192,11 @@ func run(r *core.Run) {
 			seenT := map[string]bool{}
 			for i := 0; i < pool.nbase; i++ {
 				if f.Kind == "format" && !thorough {
-					if seenT[pool.items[i].Type] {
+					ct := coarseType(pool.items[i].Type)
+					if seenT[ct] {
 						continue
 					}
-					seenT[pool.items[i].Type] = true
+					seenT[ct] = true
 				}
 				ins = append(ins, i)
 			}
@@ -255,9 +256,17 @@ func run(r *core.Run) {
 				p2.items = append(p2.items, poolItem{Expr: so.expr, Type: "optpair"})
 				p2.optVals = append(p2.optVals, so.val)
 			}
-			pairIns := map[string]bool{"decode_struct": true, "decode_raw": true, "binary": true}
+			// (the CBOR sample has every scalar kind and strings on the length grid around the
+			// levels of string_truncate: what the display options are applied to)
+			pairIns := map[string]bool{"decode_struct": true, "decode_raw": true, "binary": true, "decode_struct:scalars": true}
 			if thorough {
-				pairIns = shapedIns
+				pairIns = map[string]bool{"decode_scalar:string": true, "binary:wideunit": true, "decode_array:scalars": true}
+				for k := range shapedIns {
+					pairIns[k] = true
+				}
+				for k := range map[string]bool{"decode_struct:scalars": true} {
+					pairIns[k] = true
+				}
 			}
 			for _, in := range ins {
 				if !pairIns[pool.items[in].Type] {
